@@ -1433,7 +1433,13 @@ impl<'a> Gen<'a> {
             }
             9 => {
                 let (d, t) = env.dicts[self.ch.below(env.dicts.len())].clone();
-                let k = if self.ch.bool() { Expr::Lit(Ty::Felt, BigInt::from(self.ch.below(4))) } else { self.expr(env, &Ty::Felt, f.min(1)) };
+                // Small keys, keys beyond 2^128 (the squash code has a separate path when small and
+                // big keys meet in one dictionary), or any felt252 expression.
+                let k = match self.ch.below(6) {
+                    0 | 1 | 2 => Expr::Lit(Ty::Felt, BigInt::from(self.ch.below(4))),
+                    3 => Expr::Lit(Ty::Felt, [BigInt::one() << 128u32, (BigInt::one() << 200u32) + BigInt::one(), prime() - BigInt::one()][self.ch.below(3)].clone()),
+                    _ => self.expr(env, &Ty::Felt, f.min(1)),
+                };
                 Some(Stmt::DictInsert(d, k, self.expr(env, &t, f.min(2))))
             }
             10 => {
